@@ -336,12 +336,6 @@ Proof.
 Qed.
 
 (* ---------- health ---------- *)
-Fixpoint first_healthy (un : list bytes) (r : list bytes) : option bytes :=
-  match r with
-  | [] => None
-  | n :: tl => if negb (mem_s n un) then Some n else first_healthy un tl
-  end.
-
 Lemma first_eligible_healthy_self self un r :
   mem_s self un = false -> first_eligible self un r = first_healthy un r.
 Proof.
